@@ -111,30 +111,51 @@ def run(ctx):
             T = perturb(rng, A) if rng.random() < 0.5 else list(A)
             tag = "mixed"
         R2 = list(A); rng.shuffle(R2)
-        lines.append("msa_compare %s %s" % (args(A), args(T)))
-        lines.append("msa_compare %s %s" % (args(R2), args(T)))       # row order of the reference changed
-        meta.append((A, T, tag))
-    rc, out, err = C.run_lines(kvh, lines, env=C.SAN_ENV, timeout=900)
+        meta.append((A, T, tag, R2))
+    # through the public API only (files -> kalign_read_input -> kalign_msa_compare), so that the oracle survives refactorings of
+    # the static helpers; a file must contain a gap character to be recognised as an alignment (the property's premise)
+    sc = C.scratch()
+    lines, keep = [], []
+    for k, (A, T, tag, R2) in enumerate(meta):
+        if not (any("-" in r for _, r in A) and any("-" in r for _, r in T)):
+            continue
+        if any(not n or any(ch.isspace() for ch in n) for n, _ in A):
+            continue
+        fr, ft, fr2 = [os.path.join(sc, "c17_%d_%s.fa" % (k, x)) for x in ("r", "t", "r2")]
+        for path, aln in ((fr, A), (ft, T), (fr2, R2)):
+            open(path, "w").write(gen.fasta_text(aln))
+        lines += ["h_read 0 %s" % fr, "h_read 1 %s" % ft, "h_read 2 %s" % fr2, "h_compare 0 1", "h_compare 2 1", "h_free 0", "h_free 1", "h_free 2"]
+        keep.append((A, T, tag))
+    chunks = [lines[i:i + 8 * 25] for i in range(0, len(lines), 8 * 25)]
+    from concurrent.futures import ThreadPoolExecutor
+    with ThreadPoolExecutor(C.NCPU) as ex:
+        res = list(ex.map(lambda ch: C.run_lines(kvh, ch, env=C.SAN_ENV, timeout=900), chunks))
+    out, crashed = [], None
+    for ch, (rc, o, err) in zip(chunks, res):
+        got = [x for x in o if x != ""]
+        if len(got) < len(ch):
+            crashed = (ch[len(got)], err[-3000:])
+        out += (o + [""] * len(ch))[:len(ch)]
     fails = []
-    if len([x for x in out if x]) < len(lines):
-        fails.append(("crash / sanitizer report in kalign_msa_compare", dict(op=lines[len([x for x in out if x])][:2000], stderr=err[-3000:])))
+    if crashed:
+        fails.append(("crash / sanitizer report in kalign_msa_compare", dict(op=crashed[0][:500], stderr=crashed[1])))
     else:
-        for k, (A, T, tag) in enumerate(meta):
+        for k, (A, T, tag) in enumerate(keep):
             ctx.evaluations += 1
-            o1, o2 = out[2 * k].split(), out[2 * k + 1].split()
-            if o1[0] != "0":
-                fails.append(("kalign_msa_compare failed (%s) on alignments of the same uniquely named sequences (%s)" % (out[2 * k], tag), dict(R=A, T=T)))
+            o1, o2 = out[8 * k + 3], out[8 * k + 4]
+            if not o1.startswith("rc=0"):
+                fails.append(("kalign_msa_compare failed (%s) on alignments of the same uniquely named sequences (%s)" % (o1, tag), dict(R=A, T=T)))
                 continue
             rR, rT = rel(A), rel(T)
             num, den = len(rR & rT), len(rR)
             if den == 0:
                 ctx.count("skipped_den0")
                 continue
-            exp = f32bits(100.0 * num / den)
-            if o1[1] != exp:
-                fails.append(("score %s differs from the definition %s = 100*%d/%d (%s)" % (o1[1], exp, num, den, tag), dict(R=A, T=T, counters=o1[2:])))
+            exp = "rc=0 score=" + f32bits(100.0 * num / den)
+            if o1 != exp:
+                fails.append(("score %s differs from the definition %s = 100*%d/%d (%s)" % (o1, exp, num, den, tag), dict(R=A, T=T)))
                 continue
-            val = struct.unpack("<f", struct.pack("<I", int(o1[1], 16)))[0]
+            val = struct.unpack("<f", struct.pack("<I", int(o1.split("=")[-1], 16)))[0]
             if not (0.0 <= val <= 100.0):
                 fails.append(("score %r outside [0,100]" % val, dict(R=A, T=T)))
                 continue
@@ -142,7 +163,7 @@ def run(ctx):
                 fails.append(("score %r for alignments that are the same up to row order and all-gap columns" % val, dict(R=A, T=T)))
                 continue
             if o2 != o1:
-                fails.append(("score depends on the row order of the reference: %s vs %s" % (out[2 * k], out[2 * k + 1]), dict(R=A, T=T)))
+                fails.append(("score depends on the row order of the reference: %s vs %s" % (o1, o2), dict(R=A, T=T)))
                 continue
             ctx.count("tag_" + tag.split()[0])
             if len(A) >= 3 and 0.0 < val < 100.0:
